@@ -439,10 +439,12 @@ def b(ctx):
     for c in calls:
         Cn |= set(_rn(cfg, c))
     ctx.need(bool(Cn), "cancellation callback unreachable")
-    w = _witness(cfg, P.after_reg, Cn, cfg.exit)
+    # a path on which the observation is known to be declined needs (and has) no callback
+    declined = _truth_nodes(cfg, ast.parse("%s._accepted" % P.so, mode="eval").body, False)
+    w = _witness(cfg, P.after_reg, Cn | declined, cfg.exit)
     ctx.ob("every return after the registration passes the cancellation callback", w is None, fi, w if w is not None else calls[0],
            detail=None if w is None else "normal exit reached without the callback")
-    w = _witness(cfg, P.after_reg, Cn, cfg.rexit)
+    w = _witness(cfg, P.after_reg, Cn | declined, cfg.rexit)
     ctx.ob("every exception after the registration (including cancellation at an await) passes the cancellation callback", w is None, fi, w if w is not None else calls[0],
            detail=None if w is None else "exception exit reached without the callback")
     for c in calls:
@@ -464,8 +466,8 @@ def b(ctx):
         if f2.module is af.module or f2.module is fi.module:
             for k, n in stores_to_any(f2.node, "_cancellation_callback"):
                 writers.setdefault(f2.short, []).append(n)
-    foreign = [(f, n) for f, ns in writers.items() for n in ns if f != af.short]
-    ctx.ob("accept() is the only writer of _cancellation_callback", not foreign, ctx.prog.func(foreign[0][0]) if foreign else af, foreign[0][1] if foreign else af.node,
+    foreign = [(f, n) for f, ns in writers.items() for n in ns if f not in (af.short, "protocol.ServerObservation.__init__")]
+    ctx.ob("accept() is the only writer of _cancellation_callback (besides a default in the constructor)", not foreign, ctx.prog.func(foreign[0][0]) if foreign else af, foreign[0][1] if foreign else af.node,
            construct=None if foreign else "ServerObservation.accept")
 
 
